@@ -32,6 +32,7 @@ ASSUMPTIONS = [
     'get_depths: features from a concrete set (incl. rows without positive part -> NaN), symbolic spike->template '
     'map and column table; one batch',
     'float arithmetic is exact rational arithmetic; NaN only arises from 0/0 of concrete zeros',
+    'forms added after seeding rounds: a second get_amplitudes_true call on the same model; sampling rates 1000, 30000 and 2500 Hz',
 ]
 STUBS = []
 OUTSIDE = ['float rounding', 'get_depths batching beyond one batch of 50000 spikes', 'symbolic whitening']
